@@ -435,6 +435,7 @@ def _check(ctx, kind, ts, dtype, ba, bs, samples, pi, pr, pc, a, reqs, pending, 
                 ctx.fail(case, f'accepted, but decode_frame with the same parameters fails: {dec}', site='roundtrip')
             elif not (_same(dec, a) or (shape_free and _same_values(dec, a))):
                 ctx.fail(case, {'what': 'decode_frame(encode_frame(x)) != x', 'got_shape': list(np.asarray(dec).shape),
+                                **({'is_ybr_to_rgb': _ybr_converted(a, dec, ba)} if pi == 'YBR_FULL' else {}),
                                 'got': _ints(dec)[:24] if np.asarray(dec).dtype.kind in 'biu' else np.asarray(dec).reshape(-1)[:24].tolist(),
                                 'want': _ints(a)[:24]}, site='roundtrip')
             # ---- several calls in ONE process: a result is the caller's own.  Edit the decoded array in place (as windowing
@@ -1000,6 +1001,28 @@ def _decode_routes(ctx, reqs, pending):
     ctx.exhaustive.append(f'decode_frame parameter checks on {k} cells')
 
 
+def _decode_samples(ctx, reqs, pending):
+    """`decode_frame` with a Samples per Pixel of 1, 2, 3, 4 (audit 2): outside the native single-bit branch anything but 1 and 3
+    must be refused (pydicom), the model's decoder refuses there as well (L0 ok-vs-error, values when both decode)"""
+    k = 0
+    for ts, ba, s, pc in itertools.product([EXPLICIT, IMPLICIT], [1, 8, 16], [1, 2, 3, 4], [0, 1]):
+        rows, cols = 2, 4
+        n = rows * cols * s
+        nr = ctx.np_rng('decode-samples', k)
+        payload = bytes(nr.integers(0, 255, size=(n + 7) // 8 if ba == 1 else n * (ba // 8), endpoint=True).astype(np.uint8).tolist())
+        pi = 'MONOCHROME2' if s == 1 else 'RGB'
+        st, dec = _decode(payload, ts, rows, cols, s, ba, ba, pi, 0, pc if s > 1 else None)
+        case = {'kind': 'decode-samples', 'ts': ts, 'ba': ba, 'samples': s, 'pc': pc, 'pi': pi, 'seed_index': k}
+        ctx.case(kind='decode-samples', syntax=TSNAME[ts], outcome='decoded' if st == 'ok' else 'refused', decode_samples=s)
+        if st == 'ok' and ba != 1 and s not in (1, 3):
+            ctx.fail(case, f'a frame with {s} samples per pixel was decoded', site='decode-samples')
+        reqs.append(('decodeFrame', {'ts': ts, 'ba': ba, 'bs': ba, 'pi': pi, 'pr': 0, 'planar': (pc if s > 1 else None), 'rows': rows,
+                                     'cols': cols, 'samples': s, 'bytes': list(payload), 'index': 0}))
+        pending.append((case, 'decode-samples', _ints(dec) if st == 'ok' else 'err'))
+        k += 1
+    ctx.exhaustive.append(f'decode_frame with 1 / 2 / 3 / 4 samples per pixel on {k} cells (native, 1 / 8 / 16 bits, planar 0 / 1)')
+
+
 def run(ctx):
     import hd_env  # noqa: F401
     import warnings
@@ -1010,6 +1033,7 @@ def run(ctx):
     _cells(ctx, reqs, pending)
     _rank_and_shape_cells(ctx, reqs, pending)
     _decode_routes(ctx, reqs, pending)
+    _decode_samples(ctx, reqs, pending)
     _frames(ctx, reqs, pending)
     _glue(ctx, reqs, pending)
     _compare_all(ctx, reqs, pending)
@@ -1042,6 +1066,10 @@ def _compare_all(ctx, reqs, pending):
         elif what == 'bytes-refused':
             if 'err' not in ans:
                 ctx.disagree('L0', case, impl, ans['ok'][:40], 'pack_bits refused, the model packs')
+        elif what == 'decode-samples':
+            if (impl == 'err') != ('err' in ans) or (impl != 'err' and ans.get('ok') != impl):
+                ctx.disagree('L0', case, impl if impl == 'err' else impl[:24], ans if 'err' in ans else ans['ok'][:24],
+                             'decode_frame with this Samples per Pixel: refused-vs-decoded / values')
         elif what == 'raw-route':
             if ('ok' in ans) != (impl in ('ok', 'codec')):
                 ctx.disagree('L0', case, impl, ans, 'accept-vs-refuse of the validation (rank / shape cells)')
@@ -1081,6 +1109,42 @@ def replay(ctx, case):
     return hits[:3] or None
 
 
+def _ybr_converted(a, dec, ba):
+    """is `dec` exactly pydicom's YBR_FULL -> RGB conversion of the whole frame `a` (8-bit samples)?"""
+    try:
+        from pydicom.pixels.processing import convert_color_space
+        x = np.asarray(a)
+        if x.dtype == bool or (x.dtype.kind in 'iu' and ba == 8 and int(x.min()) >= 0 and int(x.max()) <= 255):
+            x = x.astype(np.uint8)
+        if x.ndim != 3 or x.shape[2] != 3 or x.dtype != np.uint8:
+            return False
+        rgb = convert_color_space(np.ascontiguousarray(x), 'YBR_FULL', 'RGB')
+        return bool(np.asarray(dec).shape == rgb.shape and np.array_equal(np.asarray(dec), rgb))
+    except Exception:  # noqa: BLE001
+        return False
+
+
+def _is_ybr_conversion(case, detail):
+    """is what came back the YBR_FULL -> RGB conversion of the frame that went in (pydicom's `convert_color_space`), i.e. the
+    face of the open finding and nothing else?  Decided on the samples the failure record keeps (the first 24)."""
+    if 'is_ybr_to_rgb' in detail:          # decided on the whole frame when the failure was recorded
+        return detail['is_ybr_to_rgb'] is True
+    try:
+        from pydicom.pixels.processing import convert_color_space
+        if 'data' not in case:
+            return False
+        x = _array_of_case(case)
+        if x.dtype == bool or (x.dtype.kind in 'iu' and case.get('ba') == 8 and int(x.min()) >= 0 and int(x.max()) <= 255):
+            x = x.astype(np.uint8)          # 8-bit samples held in bool / wider cells decode as uint8
+        if x.ndim != 3 or x.shape[2] != 3 or x.dtype != np.uint8:
+            return False
+        rgb = convert_color_space(np.ascontiguousarray(x), 'YBR_FULL', 'RGB')
+        got = list(detail.get('got') or [])
+        return len(got) > 0 and _ints(rgb)[:len(got)] == [int(v) for v in got]
+    except Exception:  # noqa: BLE001
+        return False
+
+
 def attribute(failure, open_findings):
     """C07-ybr-full-decoded-as-rgb: decode_frame returns YBR_FULL frames converted to RGB (native and RLE), or fails
     in that conversion for other than 8-bit unsigned samples.
@@ -1094,7 +1158,8 @@ def attribute(failure, open_findings):
     site = failure.get('site')
     if 'C07-ybr-full-decoded-as-rgb' in ids and site == 'roundtrip' and c.get('pi') == 'YBR_FULL' \
             and c.get('ts') in (IMPLICIT, EXPLICIT, RLE) and c.get('samples') == 3:
-        if isinstance(d, dict) and d.get('what') == 'decode_frame(encode_frame(x)) != x' and d.get('got_shape') == c.get('shape'):
+        if isinstance(d, dict) and d.get('what') == 'decode_frame(encode_frame(x)) != x' and d.get('got_shape') == c.get('shape') \
+                and _is_ybr_conversion(c, d):
             return 'C07-ybr-full-decoded-as-rgb'
         if isinstance(d, str) and 'color space conversion' in d:
             return 'C07-ybr-full-decoded-as-rgb'
